@@ -17,22 +17,33 @@ Gauss-Seidel (any discipline order) then contract with the same constant (classi
 Gauss-Seidel iteration operator too), and rho <= ||.||_inf.  The harness asserts q <= 0.5, and for linear systems
 rho(M) <= 0.5 and ||(I - M)^-1||_inf <= 1 / (1 - q).
 
-Graphs: for the plain solvers (MDAJacobi, MDAGaussSeidel, MDANewtonRaphson, MDAQuasiNewton, MDAGSNewton,
-MDASequential) every strongly connected labelled digraph x every subset of self-loops (n = 2: 4, n = 3: 144); for
-MDAChain every labelled digraph with self-loops (16 / 512: several SCCs, self-coupled and weakly coupled nodes,
-acyclic).  "Two deviations" on n = 3 are run on one representative per isomorphism class (27 / 104 graphs; the
-listing-order axis supplies the relabellings); "one deviation" on every labelled graph.
+Graphs: for the plain solvers (MDAGaussSeidel, MDANewtonRaphson, MDAQuasiNewton, MDAGSNewton, MDASequential) every
+strongly connected labelled digraph x every subset of self-loops (n = 2: 4, n = 3: 144); for MDAJacobi, which
+resolves *all* the couplings when some disciplines are only weakly coupled (``_compute_input_coupling_names``), every
+digraph with at least one coupling (15 / 511); for MDAChain every labelled digraph with self-loops (16 / 512: several
+SCCs, self-coupled and weakly coupled nodes, acyclic).
 
 Axes (first value = the class's default; tolerance 1e-10 and max_mda_iter 200 are fixed, serial execution is the
 base value of the parallel axis):
-  transformer  the composite RelaxationAcceleration(omega, method): 6 AccelerationMethod x omega in {1, 0.8, 1.2}
+  acc          default + the 6 AccelerationMethod      omega  over_relaxation_factor in {1, 0.8, 1.2}
+               (one composite object RelaxationAcceleration(omega, method): its full product is always enumerated)
   scaling      the 6 ResidualScaling values            warm   warm_start
   order        every listing permutation               input  3 input points
   runs         "once" | "twice" = execute(x_a) then execute(x_b) on the same object (``_scaling_data`` survives)
   sizes        mixed | ones | twos                     kind   linear | sin | tanh | quad
   parallel     serial | 2 threads | 2 processes (Jacobi, Newton, quasi-Newton; inner MDA of a chain)
-  method / use_gradient (quasi-Newton), max_iter (GS-Newton: 200 | 4 so that Newton has to finish),
-  sequence (MDASequential), inner MDA x its settings, mdachain_parallelize_tasks (MDAChain).
+  method (9 SciPy methods) / use_gradient (quasi-Newton), max_iter (GS-Newton: 200 | 4 so that Newton has to finish),
+  sequence (MDASequential: jacobi3+newton, gs2+jacobi, jacobi2+gs, newton2+gs), inner MDA (5 classes) and
+  mdachain_parallelize_tasks (MDAChain).
+
+Bound.  thorough: <= 2 deviations on every n = 2 graph and on one representative per isomorphism class of the n = 3
+graphs (plain solvers: the 27 strongly connected classes; chains: the classes where a chain is more than its inner
+MDA, i.e. not one group covering everything and not acyclic; the other representatives <= 1), and every listing
+permutation of the default vector on every labelled n = 3 graph (the order axis supplies the relabellings of the
+representatives).  quick: <= 1 deviation on n = 2, the default vector on every labelled n = 3 graph, every listing
+permutation on the n = 3 representatives.  Both tiers: the acceleration x relaxation product (n = 2; n = 3: strongly
+connected representatives of the plain solvers, in thorough also the multi-component chains).  Cap: process-based
+execution (every MDA iteration forks a pool) only as a single deviation.
 
 Oracles, all derived (max-norm; q, kappa = 1 / (1 - q) >= ||(I - M_sub)^-1||_inf for every principal subsystem):
   every solver stops on a *scaled* residual R_k = G(x_k) - x_k evaluated at a point x_k and returns
@@ -64,10 +75,15 @@ Oracle boundaries (rule 1):
   Broyden callbacks and is scaled differently from SciPy's own criterion), so *every* quasi-Newton run is held to
   (i)-(iii), with SciPy's documented criteria: nonlin methods stop on ||F||_inf <= tol ||F_0||_inf (s = r0); hybr /
   lm on MINPACK's xtol "relative error between two consecutive iterates" (s = sqrt(N) (1 + ||z*||)); df-sane on
-  ||F|| <= tol (1 + ||F_0||).  Only the SciPy methods that converge on linear systems are in the alphabet
-  (linearmixing, excitingmixing, diagbroyden are mixing schemes without that property).
-* quasi-Newton returns the non-coupling outputs ``o{i}`` of its last function evaluation; (i) is checked on them as
-  on every other output.
+  ||F|| <= tol (1 + ||F_0||).  These are SciPy's documented rules, not bounds proved from the tolerance (none
+  exists for a trust-region radius test).  linearmixing is not in the alphabet: its fixed mixing step needs more than
+  200 residual evaluations on part of the family.
+* (i) is checked on the non-coupling outputs ``o{i}`` as on every other output (this is what exposed that
+  MDAQuasiNewton returned them from its last residual evaluation, a finite-difference perturbation point).
+* a phase that was deliberately given a few iterations (GS-Newton with max_mda_iter = 4, first phases of
+  MDASequential) may exhaust them: its criterion is relative to its own, possibly tiny, first residual.  Such a run is
+  counted (``budget_exhausted_runs``) and nothing is claimed about its data.  Later phases start from the result of
+  the earlier ones; the premise ||R_0||_inf <= r0 for them is that this start is within e0 + 1 of the solution.
 * MDASequential itself never updates ``normed_residual``; "reports convergence" is read from the sub-MDA that ran
   last.
 * a self-loop variable is private to its discipline (gemseo warns that other uses are unsupported).
@@ -774,22 +790,31 @@ def run(ctx):
         allg = list(graphs(n))
         strong = [(e, lp) for e, lp in allg if strongly_connected(n, [tuple(a) for a in e])]
         gcount[f"n{n}"] = {"all": len(allg), "strongly_connected": len(strong), "classes_all": len(representatives(allg, n)),
-                           "classes_strongly_connected": len(representatives(strong, n))}
+                           "classes_strongly_connected": len(representatives(strong, n)),
+                           "classes_multi_component": sum(1 for e, lp in representatives(allg, n)
+                                                          if not graph_class(n, e, lp).startswith(("one-group", "acyclic")))}
     ctx.tally.notes["graphs"] = gcount
     todo.sort(key=lambda c: c["_deviations"])  # simplest first (violations keep the first case of a signature)
     pmap(_case, todo, ctx.tally, jobs=ctx.jobs, chunk=40, timeout=120)
     return {
         "level": LEVEL,
-        "rule": "E2 deviation-bounded enumeration: (class x coupling digraph) x every setting vector with <= k deviations from the "
-        "class's defaults over the axes transformer (acceleration x relaxation), scaling, warm start, listing order, input point, "
-        "once/twice, sizes, system kind, parallel execution, and the class-specific axes.  "
-        + ("thorough: k = 2 on n = 2 and on one representative per isomorphism class of n = 3 graphs, k = 1 on every labelled graph"
-           if ctx.thorough else "quick: k = 1 on n = 2 and on the n = 3 representatives, every listing permutation on every labelled n = 3 graph")
-        + ".  A case is non-trivial when every solver loop reported convergence and at least one ran >= 3 iterations (the update rule, "
-        "not the first sweep, produced the returned point)",
+        "rule": "E2 deviation-bounded enumeration: (MDA class x coupling digraph) x every setting vector with <= k deviations from the "
+        "class's defaults over the axes acceleration, relaxation factor, residual scaling, warm start, listing order, input point, "
+        "once/twice, sizes, system kind, parallel execution and the class-specific axes (quasi-Newton method / gradient, GS-Newton "
+        "budget, MDASequential sequence, inner MDA and parallel tasks of MDAChain).  "
+        + ("thorough: k = 2 on every n = 2 graph and on one representative per isomorphism class of the n = 3 graphs (chains: classes with "
+           "more than one component; the others k = 1), every listing permutation of the default vector on every labelled n = 3 graph"
+           if ctx.thorough else
+           "quick: k = 1 on every n = 2 graph, the default vector on every labelled n = 3 graph, every listing permutation on the n = 3 "
+           "representatives")
+        + "; the acceleration x relaxation product of the composite transformer (n = 2, and the strongly connected n = 3 representatives of "
+        "the plain solvers).  A case is non-trivial when every solver loop reported convergence and at least one ran >= 3 iterations "
+        "(the update rule, not the first sweep, produced the returned point)",
         "exhaustive": True,
         "bounds": {"deviations": 2 if ctx.thorough else 1, "max_disciplines": 3, "sizes": [1, 2], "tolerance": TOL, "max_mda_iter": MAX_ITER,
                    "alphabet": ALPHA["name"]},
+        "caps": {"process_based_execution": "single deviation only (every MDA iteration forks a process pool)",
+                 "two_deviations_n3": "one representative per isomorphism class; the listing-order axis supplies the relabellings"},
         "assumptions": [
             "value alphabet: one coefficient table / start value / 3 input points per VERIF_SEED (4 alphabets); structural axes exhaustive within the bound",
             "one variable per edge, private self-loop variables, one shared input x, one non-coupling output per discipline",
